@@ -681,6 +681,9 @@ func (s *sqGen) atom() *sqv {
 	case r == 8:
 		return &sqv{kind: 'q', name: []string{"str", "k", "xy"}[s.g.Rng.Intn(3)]}
 	}
+	if s.g.Rng.Intn(6) == 0 {
+		return &sqv{kind: 's', name: sqSyms[s.g.Rng.Intn(len(sqSyms))]} // incl. unquote, hash, quote as plain symbols
+	}
 	return &sqv{kind: 's', name: sqSyms[s.g.Rng.Intn(4)]}
 }
 
